@@ -263,7 +263,8 @@ Lemma run_actions_quiet acts : forall e q d, quiet (hevs (run_actions acts e q d
 Proof.
   induction acts as [|a acts IH]; intros e q d; [reflexivity|].
   destruct a; cbn [run_actions]; try apply IH; try reflexivity.
-  destruct d; [reflexivity|apply IH].
+  - destruct d; [reflexivity|apply IH].
+  - destruct (has_next q d); [reflexivity|apply IH].
 Qed.
 
 Lemma scan_range bs e b n i m : scan bs e b n = Some (i, m) -> (1 <= i <= n)%nat.
@@ -442,6 +443,7 @@ Proof.
   destruct a; cbn [run_actions]; try apply IH; try constructor.
   - cbn [hevs hq]. apply IH.
   - destruct d; [constructor|apply IH].
+  - destruct (has_next q d); [constructor|apply IH].
 Qed.
 
 Definition queue_replayed (q : list item) (r : lres) : Prop :=
@@ -515,7 +517,8 @@ Lemma run_actions_no_pop acts : forall e q d, pops (hevs (run_actions acts e q d
 Proof.
   induction acts as [|a acts IH]; intros e q d; [reflexivity|].
   destruct a; cbn [run_actions]; try apply IH; try reflexivity.
-  destruct d; [reflexivity|apply IH].
+  - destruct d; [reflexivity|apply IH].
+  - destruct (has_next q d); [reflexivity|apply IH].
 Qed.
 
 Definition no_pop (r : lres) : Prop :=
@@ -590,7 +593,8 @@ Proof.
   induction acts as [|a acts IH]; intros e q d H; [split; reflexivity|].
   cbn in H. apply andb_prop in H. destruct H as [H1 H2].
   destruct a; cbn [run_actions]; try (apply IH; exact H2); try (split; reflexivity); try discriminate.
-  destruct d; [split; reflexivity|apply IH; exact H2].
+  - destruct d; [split; reflexivity|apply IH; exact H2].
+  - destruct (has_next q d); [split; reflexivity|apply IH; exact H2].
 Qed.
 
 Lemma get_matches_in bs e ks m : In m (get_matches bs e ks) -> In m bs.
@@ -880,3 +884,14 @@ Proof.
     split; [reflexivity|]. split; [reflexivity|]. split; [exact Q|exact HR].
   - injection H as <- <-. cbn. split; [reflexivity|]. split; [reflexivity|]. split; [reflexivity|constructor].
 Qed.
+
+(* ---- a handler that calls process_keys() itself (round 6) *)
+Lemma reentry_noop acts e q d : has_next q d = false ->
+  run_actions (AProcess :: acts) e q d = run_actions acts e q d.
+Proof. intros H. cbn [run_actions]. rewrite H. reflexivity. Qed.
+
+(* with an item to take, the inner call raises out of the handler whatever the handler would have done next;
+   conditions and is_done are as they were, no key event is produced, the whole queue is what the reset discards *)
+Lemma reentry_raises acts e q d : has_next q d = true ->
+  run_actions (AProcess :: acts) e q d = mkhres e q d [] true.
+Proof. intros H. cbn [run_actions]. rewrite H. reflexivity. Qed.
